@@ -12,7 +12,7 @@ WEIGHTS = {"eval": 7, "set_ref": 2.5, "del_ref": 0.8, "set_formula": 2, "new_cel
 
 def swarm(rng):
     cfg = c02.swarm(rng)
-    cfg.update({"p_sformula": rng.choice([0.6, 0.8, 1.0]), "p_item_eval": 0.8, "n_spaces": rng.choice([2, 3, 4]), "max_depth": 2,
+    cfg.update({"p_sformula": rng.choice([0.6, 0.8, 1.0]), "p_item_eval": 0.8, "n_spaces": rng.choice([2, 3, 4, 6]), "max_depth": rng.choice([2, 3, 3]),
                 "n_steps": rng.choice([12, 20, 30]), "p_handle": rng.choice([0.15, 0.3]), "p_check": 0.2, "base_switch": rng.random() < 0.3,
                 "p_objref": rng.choice([0.0, 0.1]), "recalc": False, "p_identity": 0.3})
     return cfg
@@ -71,6 +71,26 @@ class ItemOracle(history.Oracle):
         for name, par in zip([p for p, d in params], args):
             if getattr(a, name) != par:
                 raise Violation("C07/parameter-not-bound-as-name", {"space": op["space"], "param": name})
+        # child spaces replicated: the dynamic tree mirrors the base's tree, every node a distinct object under its own parent
+        seen = {}
+
+        def walk(dyn, base, path):
+            if set(dyn.spaces) != set(base.spaces):
+                raise Violation("C07/child-spaces-not-replicated", {"instance": path, "dynamic": sorted(dyn.spaces), "base": sorted(base.spaces)})
+            for n, ch in dyn.spaces.items():
+                if id(ch) in seen:
+                    raise Violation("C07/two-dynamic-spaces-are-one-object", {"first": seen[id(ch)], "second": path + "." + n})
+                seen[id(ch)] = path + "." + n
+                if ch.parent is not dyn:
+                    raise Violation("C07/dynamic-child-has-wrong-parent", {"child": path + "." + n})
+                if set(ch.cells) != set(base.spaces[n].cells):
+                    raise Violation("C07/dynamic-child-cells-differ-from-base", {"child": path + "." + n})
+                walk(ch, base.spaces[n], path + "." + n)
+        ret = ref.formula.get("ret")
+        if not (ret and "base" in ret):
+            walk(a, sp, op["space"] + repr(args))
+            if seen:
+                self.ctx.count("dynamic_children_checked", len(seen), "reach")
         self.listing(sp, op)
 
     def listing(self, sp, op):
